@@ -180,6 +180,14 @@ def apply_mutation(ex, step, root, pool, mut, fresh):
             DETACHED.setdefault(id(root), []).append(x)
     elif mut == "tchild=":
         root.tchild = fresh()
+    elif mut == "add_tracked2":      # another trait matched by the same metadata filter appears later (trait_added), with a value
+        name = "late%d" % step
+        root.add_trait(name, Instance(N, tracked2=True))
+        setattr(root, name, fresh())
+    elif mut == "add_untracked":     # ... and one that the filter does not match
+        name = "plain%d" % step
+        root.add_trait(name, Instance(N))
+        setattr(root, name, fresh())
     elif mut == "dchild=":
         root.dchild = pool[ex.choice("pick%d" % step, len(pool))]
     elif mut == "dchild=shared":
@@ -222,6 +230,12 @@ def reachable(root, expr):
                 v = getattr(o, st, None) if isinstance(o, N) else None
                 if v is not None:
                     nxt.append(v)
+                if st == "tchild" and isinstance(o, N):      # "+tracked2": every trait carrying the metadata, also ones added later
+                    for n_ in o.trait_names(tracked2=True):
+                        if n_ != "tchild":
+                            v = getattr(o, n_, None)
+                            if v is not None:
+                                nxt.append(v)
             elif st in ("anykids", "tkids"):
                 if isinstance(o, N):
                     nxt.extend(getattr(o, st))
@@ -243,6 +257,9 @@ def all_nodes(root, pool):
             add(o.anybox)
             add(o.tchild)
             add(o.__dict__.get("dchild"))
+            for n_, v_ in list(o.__dict__.items()):
+                if (n_.startswith("late") or n_.startswith("plain")) and isinstance(v_, N):
+                    add(v_)
             for c in list(o.anykids) + list(o.tkids):
                 add(c)
             for c in o.children:
